@@ -186,7 +186,13 @@ def monitor_trace(tr):
         if a['size'] != len(a['mem']):
             viol.append(dict(prop='C15', i=rec['i'], sig=dict(kind='size'), msg='info.size %r != %d' % (a['size'], len(a['mem']))))
         # ---------------- C16 (raise is a no-op)
-        if 'err' in fn and raised and out['exc'] == fn['err'] and (not keyok or (key['ok'] not in bm and not (archived and key['ok'] in ba))):
+        if not keyok and not cfg['safe'] and 'gen' in key:
+            # a standard wrapper computes the key outside any handler: the key pipeline's exception propagates, nothing is evaluated or changed
+            tags['keyfail-std'] += 1
+            if not raised or evals != 0 or (b['mem'], b['arch'], b['swap'], b['stats']) != (a['mem'], a['arch'], a['swap'], a['stats']):
+                viol.append(dict(prop='C16', i=rec['i'], sig=dict(kind='std-keyfail', algo=algo, evals=evals, raised=bool(raised)),
+                                 msg='standard %s: the key could not be generated, yet raised=%r evaluations=%d (expected the key error, 0 evaluations, no state change)' % (algo, bool(raised), evals)))
+        elif 'err' in fn and raised and out['exc'] == fn['err'] and (not keyok or (key['ok'] not in bm and not (archived and key['ok'] in ba))):
             tags['raise'] += 1
             if (b['mem'], b['arch'], b['swap'], b['stats']) != (a['mem'], a['arch'], a['swap'], a['stats']):
                 viol.append(dict(prop='C16', i=rec['i'], sig=dict(kind='raise-changed-state', algo=algo), msg='state changed by a raising call'))
